@@ -103,6 +103,19 @@ def build_items(case):
             else:
                 prog = biased_program(rng)
             items.append({"kind": "convert", "text": render(prog), "opts": OPTS[i % len(OPTS)]})
+    elif case["kind"] == "limits":
+        # programs near what the tool can still digest, interleaved with programs it refuses: whether a program is
+        # converted or refused may not depend on what was refused before it
+        fails = ["10 GOTO 20\n", "32700 A=1\n", "10 ON ERR GOTO 10:ON ERR GOTO 10\n", "10 A=\n", "10 NEXT\n20 GOTO 99\n"]
+        for i in range(case["n"]):
+            if i % 3 == 0:
+                items.append({"kind": "convert", "text": fails[(i // 3) % len(fails)], "opts": {}})
+            elif i % 3 == 1:
+                d = 100 + 17 * (i // 3) + rng.randint(0, 9)
+                items.append({"kind": "convert", "text": "10 A=" + "(" * d + "1" + ")" * d + "\n", "opts": {}})
+            else:
+                d = 250 + 60 * (i // 3) + rng.randint(0, 30)
+                items.append({"kind": "convert", "text": "10 A=B" + "+B" * d + "\n", "opts": {}})
     elif case["kind"] == "sharedcfg":
         names = ["N$", "L$()", "T$", "M$", "Q$()"]
         for i in range(case["n"]):
@@ -164,7 +177,16 @@ def run_case(case):
     # repeated calls in this process, shuffled neighbours
     rng = random.Random(case["seed"] + 1)
     local = {}
-    for rep in range(3):
+    if case["kind"] == "limits":
+        # programs at the edge of the interpreter's stack: this (deeper) process would reach the edge a few frames
+        # earlier than the children, which says nothing about the tool - such batches are compared between children only
+        # (a third child, shuffled order)
+        idxs = list(range(len(items)))
+        rng.shuffle(idxs)
+        results[("shuffled", seeds[0])] = child(items, seeds[0], idxs)
+        obs["counters"]["fresh_processes"] += 1
+        local = {i: {results[("seed", seeds[0])][i]} for i in range(len(items))}
+    for rep in range(3 if case["kind"] != "limits" else 0):
         idxs = list(range(len(items)))
         rng.shuffle(idxs)
         for i in idxs:
@@ -215,6 +237,8 @@ def cases(tier, seed):
     hseeds = [0, 1, 2, 3, 5, 7, 11, 13] if tier == "quick" else list(range(32))
     for b in range(nb):
         yield {"kind": "convert", "seed": seed * 100003 + b, "n": 40, "hashseeds": hseeds, "sample": b == 0}
+    for b in range(1 if tier == "quick" else 6):
+        yield {"kind": "limits", "seed": seed * 100081 + b, "n": 45, "hashseeds": hseeds[:2], "sample": False}
     for b in range(1 if tier == "quick" else 8):
         yield {"kind": "sharedcfg", "seed": seed * 100069 + b, "n": 24, "hashseeds": hseeds[:3], "sample": False}
     for b in range(1 if tier == "quick" else 8):
